@@ -117,8 +117,8 @@ EXTRAS = [   # (place, text); every one is accepted on its own next to the base 
     ("g", " int fx(int a, int &b) { int k = a; while (k > 0) { k--; b += k; } for (i : int[0,2]) b += i; if (b > 9) return 9; else b = b ? 1 : 2; return b; }"),
     ("g", " const int NN = 3; int arr[NN] = { 1, 2, 3 }; int mat[2][NN]; typedef int[0, NN - 1] idx_t; int byidx[idx_t];"),
     ("g", " chan priority c < bc;"),
-    ("g", " chan cs[2]; urgent chan uc; chan priority default < cs[0], cs[1] < uc;"),
-    ("g", " meta int mi; urgent broadcast chan ubc; hybrid clock hx; double dd = 1.5; const double ee = 2.5e-1;"),
+    ("g", " chan cs[2]; urgent chan ucx; chan priority default < cs[0], cs[1] < ucx;"),
+    ("g", " meta int mi; urgent broadcast chan ubcx; hybrid clock hx; double dd = 1.5; const double ee = 2.5e-1;"),
     ("g", " void bu() { g2 = 1; } before_update { bu(), gb = 2 } after_update { gc = 0 }"),
     ("g", " typedef struct { int a; struct { int b; } in; } nest_t; nest_t nv; const nest_t nc = { 1, { 2 } }; int fnest(nest_t q) { return q.in.b + nc.a; }"),
     ("g", " bool bb = true; int[0,5] ri = 3; int[-2,2] rj; const int cc = 4; int sh = cc << 1;"),
